@@ -277,7 +277,13 @@ Record obs := mk_obs {
   ob_map : list (option string);                           (* map_placeholder_id_to_iteration per looped component *)
   (* what the real Controller reports per placeholder when it drove the iterations (empty otherwise):
      active producers (_comp_get_active_predecessors), all / latest true nodes (_true_nodes_from_identifiers) *)
-  ob_ctl : list (string * (list string * (list string * list string)))
+  ob_ctl : list (string * (list string * (list string * list string)));
+  (* Controller.comp_condition_to_dowhile (keys: the components whose termination makes the Controller evaluate the
+     condition / instantiate the next iteration; filled by Controller.parse_workflow_graph) after
+     Controller.initialise and after every Controller._instantiate_next_dowhile_iteration (empty when the workflow
+     was not driven by a Controller), and the components tagged 'C:' by generate_status_report_for_nodes at the end *)
+  ob_conds : list (list string);
+  ob_ctags : option (list string)
 }.
 
 Definition set_eqb (a b : list string) : bool :=
@@ -343,9 +349,33 @@ Definition check_obs (kk : keykind) (w : wfst) (o : obs) : bool :=
     | [] => false
     end) (ob_ctl o).
 
+(* Controller.parse_workflow_graph: the component registered for the DoWhile is the producer of
+   state['currentCondition'] = the instance found by compute_dowhile_state (stage AND name) *)
+Definition ctl_cond (w : wfst) : list string :=
+  match cur_cond_inst w with Some x => [inst_node x] | None => [] end.
+
+(* the workflows after 0, 1, .., k calls (the last one is [unroll d out k]: Proofs.trace_last) *)
+Fixpoint trace_from (k : nat) (w : wfst) : list wfst :=
+  w :: match k with O => [] | S k' => trace_from k' (next_iteration w) end.
+
+Definition check_conds (tr : list wfst) (wl : wfst) (o : obs) : bool :=
+  (match ob_conds o with
+   | [] => true
+   | cs => Nat.eqb (length cs) (length tr) &&
+           forallb (fun p => set_eqb (ctl_cond (fst p)) (snd p)) (combine tr cs)
+   end) &&
+  (match ob_ctags o with
+   | None => true
+   | Some tags => set_eqb (ctl_cond wl) tags
+   end).
+
 Record case := mk_case { k_doc : dowhile; k_out : list ocomp; k_k : nat; k_obs : obs }.
 
 (* the repaired code uses int() at every site *)
-Definition check_case (c : case) : bool := check_obs KeyInt (unroll (k_doc c) (k_out c) (k_k c)) (k_obs c).
+Definition check_case (c : case) : bool :=
+  let w0 := init (k_doc c) (k_out c) in
+  let tr := trace_from (k_k c) w0 in
+  let wl := last tr w0 in
+  check_obs KeyInt wl (k_obs c) && check_conds tr wl (k_obs c).
 (* the pinned code before the fix of F5 (string keys at the three sites) — used by the replay of the witness *)
 Definition check_case_prefix (c : case) : bool := check_obs KeyString (unroll (k_doc c) (k_out c) (k_k c)) (k_obs c).
